@@ -131,6 +131,20 @@ add("C11",
     "so that the at-least-one correction cannot bias the means.",
     engine="hypothesis-stateful")
 
+add("C12",
+    "property-based testing: Hypothesis @given with a triple-multiset / filtered-data reference "
+    "model, differential per-group vs overall, and a Hypothesis state machine over swap / "
+    "resample / index / group_cm histories",
+    "Exploration: the multiset of (score, group, class) triples is tracked through construction "
+    "(3 routes), swap and all nine sampling mode x stratification combinations; per-group "
+    "matrices equal counting on the filtered input and sum to the overall matrix; group name "
+    "list and per-group counts are preserved as documented; groupwise equals group-by-group "
+    "evaluation.",
+    "Scores are distinct where attachment is traced through sampling; single_pass only where "
+    "every sampled (group, class) stratum is non-empty (as the property states); labels compared "
+    "by value.",
+    engine="hypothesis-stateful")
+
 NOT_YET = {}
 
 
